@@ -291,6 +291,9 @@ def run_cell(cell, unit_c_path, workdir, log):
                               "trace": r.get("trace", [])} for r in failed]
         else:
             res["status"] = "pass"
+        if cell.enforce and res["status"] == "pass" and not any(r["property"].startswith(cell.enforce + ".postcondition") for r in real):
+            res["status"] = "undecided"
+            res["reason"] = "VACUOUS: contract of %s enforced but no postcondition obligation was generated" % cell.enforce
         if cell.loop_contracts and res["loop_contract_obligations"] == 0 and res["status"] == "pass":
             res["status"] = "undecided"
             res["reason"] = "loop contract expected but no loop_invariant obligations present (contract silently dropped)"
